@@ -269,3 +269,15 @@ def check(ctx):
             ctx.ok('C19.6', ctx.site(b), '%s: Ok iff %s(self, type)' % (name, atom))
         else:
             ctx.fail('C19.6', ctx.site(b), '%s can return Ok without %s: %s' % (name, atom, info), key='C19.6|' + name)
+
+
+_check_inner = check
+
+
+def check(ctx):
+    _check_inner(ctx)
+    from .. import panic
+    F = ctx.F
+    names = ['attachments', 'attachments_with_vendor_and_conforms_to', 'attachment_with_vendor_and_conforms_to', 'attachment_payload', 'attachment_vendor', 'attachment_conforms_to',
+             'validate_attachment', 'types', 'get_type', 'has_type', 'has_type_envelope', 'check_type', 'check_type_envelope']
+    panic.slice_check(ctx, 'C19.7', [F.method1('Envelope', n) for n in names if F.method1('Envelope', n)], 'attachment/type')
